@@ -42,6 +42,10 @@ def read_alphabet(n):
     out += [read(clip5=5), read(clip3=7), read(clip5=5, clip3=7)]
     for fl in (D, S, U, Q, R, P, P | R, D | S, D | R, S | P, U | Q, D | S | U | Q, Q | R | P):
         out.append(read(flag=fl))
+    # flag bits that are NOT in the statement's exclusion list: such reads are counted (supplementary 0x800, mate unmapped
+    # 0x8, proper pair 0x2, mate reverse 0x20, first / second in pair 0x40 / 0x80)
+    for fl in (0x800, 0x800 | R, P | 0x2 | 0x20 | 0x40, P | 0x8 | 0x80):
+        out.append(read(flag=fl))
     for mq in (0, 1, 29, 30):
         out.append(read(mapq=mq))
     out += [read(contig="c2", start=10), read(contig="c2", start=150, flag=D), read(contig="c2", start=0, length=30, mapq=1)]
@@ -59,7 +63,7 @@ RICH_BINS = [
 ]
 
 
-def write_bam(path, reads, contigs=CONTIGS):
+def write_bam(path, reads, contigs=CONTIGS, index=True):
     header = {"HD": {"VN": "1.6", "SO": "coordinate"}, "SQ": [{"SN": c, "LN": n} for c, n in contigs.items()]}
     names = list(contigs)
     order = sorted(range(len(reads)), key=lambda i: (names.index(reads[i]["contig"]), reads[i]["start"], i))
@@ -85,7 +89,8 @@ def write_bam(path, reads, contigs=CONTIGS):
             a.next_reference_id = -1
             a.next_reference_start = -1
             out.write(a)
-    pysam.index(path)
+    if index:
+        pysam.index(path)
 
 
 def write_bed(path, bins, ncols=4, comment=False):
@@ -131,7 +136,7 @@ def describe(tier):
         "virtual executor. state = canonical (reads, bed, options[, schedule]); non-trivial = some bin has depth > 0 and some read "
         "is excluded, or a schedule with a non-default choice",
         "bound": {
-            "reads": f"multisets of <=2 from the first 36 reads of the {len(read_alphabet(99))}-read alphabet" if not t else f"multisets of <=2 from the full {len(read_alphabet(99))}-read alphabet and <=3 from its first 18",
+            "reads": f"multisets of <=2 from the first 40 reads of the {len(read_alphabet(99))}-read alphabet" if not t else f"multisets of <=2 from the full {len(read_alphabet(99))}-read alphabet and <=3 from its first 18",
             "piles": "50 / 500 reads tiling c1" + (" / 5000 tiling / 9000 at one position" if t else ""),
             "schedules": "pileup: 2 and 3 chunks (incl. a partial last chunk) x workers {1,2}; count: 2 contig tasks x workers {1,2}"
             + ("; pileup 4 chunks x 1 worker" if t else ""),
@@ -150,7 +155,7 @@ def describe(tier):
 
 def cases(tier):
     t = tier == "thorough"
-    alpha = read_alphabet(99 if t else 36)
+    alpha = read_alphabet(99 if t else 40)
     n = len(alpha)
     # scope A: read multisets (batched by first read index)
     yield {"check": "reads", "first": None, "n": n}
@@ -181,6 +186,9 @@ def cases(tier):
     if t:
         for j in range(16):
             yield {"check": "schedules", "algo": "pileup", "bins": 4, "chunk": 1, "workers": 1, "part": [j, 16]}
+    # scope F: one path, several BAMs in turn (no index, or an index older than the file): every call sees the file that is there
+    for algo in ("pileup", "count"):
+        yield {"check": "rewritten", "algo": algo}
     # scope E: the executor contract as a TLA+ model; every behaviour TLC enumerates is replayed on the real code
     for algo, bins, chunk, workers in (("pileup", 2, 1, 2), ("pileup", 3, 1, 1), ("count", 4, 0, 2), ("pileup", 3, 1, 2)) + (
         (("pileup", 5, 2, 2), ("pileup", 4, 1, 1), ("pileup", 3, 1, 3)) if t else ()
@@ -208,6 +216,8 @@ def run(case, ctx):
             run_pools(case, ctx, tmp)
         elif k == "schedules":
             run_schedules(case, ctx, tmp)
+        elif k == "rewritten":
+            run_rewritten(case, ctx, tmp)
         elif k == "tlc":
             run_schedules(dict(case, part=[0, 1]), ctx, tmp, tlc=True)
         else:
@@ -411,6 +421,27 @@ def run_pools(case, ctx, tmp):
     ctx.sample("pools", {"algo": case["algo"], "procs": case["procs"], "chunk_files_left_in_tmp": len(left)})
 
 
+def run_rewritten(case, ctx, tmp):
+    """A BAM path whose file is replaced between calls in one process.  The first file comes without an index (the
+    library builds it); the later ones are written over it and the index left behind is made older than the file."""
+    bed4 = os.path.join(tmp, "rich.bed")
+    write_bed(bed4, RICH_BINS, 4)
+    bam = os.path.join(tmp, "same-path.bam")
+    by_count = case["algo"] == "count"
+    sequence = [fixed_bam("empty"), fixed_bam("pair"), fixed_bam("pile50"), fixed_bam("empty"), [read(start=95, length=150)]]
+    for step, reads in enumerate(sequence):
+        write_bam(bam, reads, index=False)
+        for ext in (".bai",):
+            if os.path.exists(bam + ext):
+                st = os.stat(bam)
+                os.utime(bam + ext, (st.st_atime - 100, st.st_mtime - 100))  # an index from before the file was replaced
+        sub = {"step": step, "reads": reads if len(reads) <= 4 else f"{len(reads)} reads", "by_count": by_count, "history": "same path, file replaced %d time(s)" % step}
+        check_cov(ctx, bed4, bam, reads, RICH_BINS, by_count, 1, sub, feature="/path-reused" if step else "/no-index-yet")
+        ctx.state(("rewritten", case["algo"], step), nontrivial=step > 0)
+        ctx.stratum("bam-path-reused" if step else "bam-without-index")
+    ctx.sample("rewritten", {"algo": case["algo"], "steps": len(sequence)})
+
+
 def _child_schedule(algo, bins, chunk, workers, prefix, tmp):
     """One execution of do_coverage under a fixed choice prefix (runs in a forked child)."""
     bam, bed = os.path.join(tmp, "x.bam"), os.path.join(tmp, "s.bed")
@@ -507,7 +538,7 @@ def run_schedules(case, ctx, tmp, tlc=False):
 
 MANIFEST = {
     "text": "Bounded-exhaustive exploration of the real do_coverage on synthetic BAM/BED files written by the harness: every "
-    "multiset of <=2 reads from a 36-read deviation alphabet (flags, MAPQ around each cut-off, soft clips, positions at bin "
+    "multiset of <=2 reads from a 40-read deviation alphabet (flags, MAPQ around each cut-off, soft clips, positions at bin "
     "edges and contig ends) x a BED with tiling/abutting/overlapping/nested/zero-width/off-end bins x mapq cut-offs x both "
     "algorithms, BED shape and column variants x fixed BAMs incl. piles, compared with a per-base depth-array model; the "
     "worker fan-out is model-checked: a virtual ProcessPoolExecutor enumerates every schedule (produce chunk / run task on "
